@@ -33,7 +33,7 @@ using Tree = fcppt::container::tree::object<sim::Val>;
 using LTree = fcppt::container::tree::object<long>;
 
 constexpr unsigned SLOTS = 4;
-constexpr unsigned MAX_NODES = 48;
+constexpr unsigned MAX_NODES = 64;
 
 struct M
 {
@@ -404,6 +404,13 @@ struct World
 
     if (n == "push_v" || n == "insert_v")
     {
+      // `rep`: the same insertion repeated (a node that collects dozens of children within one
+      // history; an implementation may treat wide nodes differently, e.g. in sort)
+      unsigned const reps = 1 + static_cast<unsigned>(op.getu("rep") % 40);
+      if (reps > 1)
+        ctx.probe("bulk_insertion");
+      for (unsigned rep_i = 0; rep_i < reps; ++rep_i)
+      {
       if (total_nodes() >= MAX_NODES)
         return;
       bool const front = op.get("front") != 0;
@@ -441,6 +448,9 @@ struct World
       else
         after_fault({a.slot}, n);
       ctx.ev(n + " at " + std::to_string(ma.id) + " k=" + std::to_string(k) + " id=" + std::to_string(id) + (ok ? "" : " threw"));
+      if (!ok)
+        return; // (the model was re-synchronised: `ma` is no longer the live model node)
+      }
       return;
     }
     if (n == "push_copy" || n == "insert_copy")
@@ -1078,6 +1088,8 @@ void generate(sim::Rng &rng, sim::Plan &p, bool)
     op.set("node", wide && rng.chance(3, 4) ? 0L : static_cast<long>(rng.below(64)));
     if ((n == "push_v" || n == "insert_v") && rng.below(100) < dup_pct)
       op.set("dup", static_cast<long>(rng.below(64)));
+    if ((n == "push_v" || n == "insert_v") && wide && rng.chance(1, 3))
+      op.set("rep", static_cast<long>(rng.range(8, 39)));
     if (n == "new_root" || n == "push_v" || n == "insert_v" || n == "value")
       op.set("rv", static_cast<long>(rng.below(2)));
     if (n == "push_v" || n == "push_copy" || n == "push_root" || n == "pop")
